@@ -597,7 +597,10 @@ def run(case):
                                                   'reentry')},
       'faults': {'preemption': len(s.switch_log),
                  'exception_exit': c['exc_exit'],
-                 'invalid_entry': c['invalid_entry']},
+                 'invalid_entry': c['invalid_entry'],
+                 'macro_evaluation_fails_in_scope': c.get('macro_faults', 0),
+                 'finalize_rejected_in_scope': c.get('finalize_faults', 0),
+                 'clear_config_in_scope': c.get('clears', 0)},
       'probes': dict({'window.' + k: 0 for k in _windows()},
                      **{'window.' + k: n for k, n in s.window_hits.items()}),
       'sched': {'yields': s.yields, 'switches': len(s.switch_log),
